@@ -4,7 +4,8 @@ set -e
 cd "$(dirname "$0")"
 export GOFLAGS=-mod=mod GOPROXY=off GOSUMDB=off GOTOOLCHAIN=local
 mkdir -p work evidence replays
-(cd lean && lake build GPy gpymodel)
+python3 tools/mkdrivers.py
+(cd lean && lake build)
 cp /repo/go.sum harness/go.sum
 (cd harness && go build -tags verif -o ../work/gpyh .)
 echo setup ok
